@@ -203,6 +203,13 @@ fn reader_probe(path: &str, format: ktio::seq::SeqFormat, items: &[String], show
     None
 }
 
+/// how the calls on the object under test are varied for this case (setter order, repeated setters, a second run);
+/// under `hooks` the event log describes exactly one run, so the plain form is used there
+pub static PLAIN: std::sync::atomic::AtomicBool = std::sync::atomic::AtomicBool::new(false);
+fn variant_of(p: &[&str], n: usize) -> usize {
+    if PLAIN.load(std::sync::atomic::Ordering::SeqCst) { 0 } else { p.iter().map(|x| x.len()).sum::<usize>() % n }
+}
+
 fn plant_stale(od: &str) {
     for part in 0..20 { for chunk in 0..4 {
         std::fs::write(format!("{}/temp_kmers.part_{}_chunk_{}", od, part, chunk), format!("{}\t7\n{}\t3\n", part, part + 100)).unwrap();
@@ -371,7 +378,7 @@ pub fn exec(p: &[&str], scratch: &str) -> String {
             let t: usize = p[5].parse().unwrap();
             // the settings are what the LAST call of each setter said, in whatever order and however often the setters
             // were called, and an object can be run more than once: the way the calls are made varies with the case
-            let variant = p.iter().map(|x| x.len()).sum::<usize>() % 4;
+            let variant = variant_of(p, 4);
             match variant {
                 1 => { c.set_max_memory(p[6].parse().unwrap()); if t > 0 { c.set_threads(t); } c.set_delim(delim.clone()); c.set_header(hdr); c.set_norm(norm); }
                 2 => {
@@ -395,7 +402,7 @@ pub fn exec(p: &[&str], scratch: &str) -> String {
             let mut c = composition::cgr::CgrComputer::new(inp, out.clone(), p[1].parse().unwrap());
             let t: usize = p[2].parse().unwrap(); if t > 0 { c.set_threads(t); }
             c.verif_set_max_memory(p[3].parse().unwrap());
-            let twice = p.iter().map(|x| x.len()).sum::<usize>() % 3 == 0;
+            let twice = variant_of(p, 3) == 0;
             let r = std::panic::catch_unwind(std::panic::AssertUnwindSafe(|| { if twice { let _ = c.vectorise(); } c.vectorise() }));
             match r { Ok(Ok(())) => parse_points(&String::from_utf8_lossy(&std::fs::read(&out).unwrap()), 2), _ => refusal(&out, &recs) }
         }
@@ -406,7 +413,7 @@ pub fn exec(p: &[&str], scratch: &str) -> String {
             let inp = serialise(&recs, p[6], 60, &d, "in");
             let out = format!("{}/out.cgr", d);
             let mut c = composition::oligocgr::OligoCgrComputer::new(inp, out.clone(), p[1].parse().unwrap(), p[2].parse().unwrap());
-            let variant = p.iter().map(|x| x.len()).sum::<usize>() % 3;
+            let variant = variant_of(p, 3);
             if variant == 1 { c.set_norm(p[3] != "1"); }
             c.set_norm(p[3] == "1");
             let t: usize = p[4].parse().unwrap(); if t > 0 { c.set_threads(t); }
@@ -435,7 +442,7 @@ pub fn exec(p: &[&str], scratch: &str) -> String {
             let inp = serialise(&recs, p[8], 60, &d, "in");
             let od = format!("{}/out", d); std::fs::create_dir_all(&od).unwrap();
             let mut c = coverage::CovComputer::new(inp.clone(), od.clone(), p[1].parse().unwrap(), p[2].parse().unwrap(), p[3].parse().unwrap());
-            let variant = p.iter().map(|x| x.len()).sum::<usize>() % 3;
+            let variant = variant_of(p, 3);
             if variant == 1 { c.set_delim("#@#".to_string()); c.set_norm(p[4] != "1"); }
             c.set_norm(p[4] == "1");
             c.set_delim(String::from_utf8(unhex(p[5])).unwrap());
